@@ -23,7 +23,7 @@ ASSUMPTIONS = ['every request carries a unique token which the peer echoes, so a
                'the peer answers *IDN?, describe, activate as a node would; the heartbeat ping is answered']
 REQUIRED = ['runs', 'conclusive_runs', 'callers_checked', 'replies_matched', 'faulted_runs', 'drops_peer', 'drops_user', 'shutdowns_checked', 'equal_key_runs']
 
-N = {'quick': 110, 'thorough': 12000}
+N = {'quick': 110, 'thorough': 6000}
 DESC = {'modules': {'m': {'accessibles': {
     'value': {'datainfo': {'type': 'double'}, 'readonly': True, 'description': 'v'},
     'target': {'datainfo': {'type': 'double'}, 'readonly': False, 'description': 't'},
